@@ -3,6 +3,7 @@
 package ev
 
 import (
+	"runtime/pprof"
 	"bufio"
 	"encoding/json"
 	"flag"
@@ -256,6 +257,16 @@ func (r *Run) NumViolations() int { r.mu.Lock(); defer r.mu.Unlock(); return len
 
 // Finish writes evidence, prints protocol lines and exits.
 func (r *Run) Finish() {
+	if os.Getenv("VERIF_MEMSTATS") != "" {
+		var ms runtime.MemStats
+		runtime.GC()
+		runtime.ReadMemStats(&ms)
+		fmt.Fprintf(os.Stderr, "MEMSTATS goroutines=%d heap_alloc=%dMB heap_sys=%dMB heap_objects=%d\n", runtime.NumGoroutine(), ms.HeapAlloc>>20, ms.HeapSys>>20, ms.HeapObjects)
+		if f, err := os.Create(os.Getenv("VERIF_MEMSTATS")); err == nil {
+			_ = pprof.Lookup("goroutine").WriteTo(f, 1)
+			f.Close()
+		}
+	}
 	wall := time.Since(r.Start).Seconds()
 	r.mu.Lock()
 	defer r.mu.Unlock()
